@@ -22,6 +22,7 @@ const (
 	BareSite    = "bare"        // SYSCALL without any number load in this function (scope bait)
 	LoadOnly    = "load-only"   // a number load that no site follows (bait for the next function)
 	GarbageNum  = "garbage-num" // number load whose operand is not a number
+	XorOnly     = "xor-only"    // XORL AX, AX that no site follows (bait for the next function when it ends this one)
 )
 
 // Item is one element of a function body.
@@ -39,6 +40,10 @@ type Item struct {
 type Func struct {
 	Name  string `json:"name"`
 	Items []Item `json:"items"`
+	// NoLead: the first item follows the header line directly; NoRet: the last item's last line ends the function (no
+	// filler, no RET behind it)
+	NoLead bool `json:"no_lead,omitempty"`
+	NoRet  bool `json:"no_ret,omitempty"`
 }
 
 // Listing is a whole disassembly.
@@ -87,8 +92,10 @@ func RenderFunc(arch string, f Func, seed uint64, startAddr int) string {
 			e.ins(fillers[r.Intn(len(fillers))])
 		}
 	}
-	fill(r.Intn(3))
-	for _, it := range f.Items {
+	if !f.NoLead {
+		fill(r.Intn(3))
+	}
+	for ii, it := range f.Items {
 		switch it.Kind {
 		case Filler:
 			fill(1 + it.Gap)
@@ -122,10 +129,16 @@ func RenderFunc(arch string, f Func, seed uint64, startAddr int) string {
 		case GarbageNum:
 			e.ins("MOVL $runtime.zerobase(SB), AX")
 			e.ins(it.Instr)
+		case XorOnly:
+			e.ins("XORL AX, AX")
 		}
-		fill(r.Intn(2))
+		if !(f.NoRet && ii == len(f.Items)-1) {
+			fill(r.Intn(2))
+		}
 	}
-	e.ins("RET")
+	if !f.NoRet {
+		e.ins("RET")
+	}
 	return e.b.String()
 }
 
@@ -186,7 +199,7 @@ func Expectations(l *Listing, table map[int]string) []Expect {
 				if _, ok := table[it.Num]; ok && it.Gap == 0 {
 					e.Must = append(e.Must, it.Num)
 				}
-			case XorSite:
+			case XorSite, XorOnly:
 				e.Possible[0] = true
 			case LoadOnly:
 				e.Possible[it.Num] = true
